@@ -123,6 +123,18 @@ func compileDoc(doc interface{}, loader string, dir string, id int) (s *core.Spe
 		defer os.Remove(f)
 		_, sp, e := sio.ResolveSpecSource(context.Background(), &crew.SpecSource{URL: "file://" + f})
 		return sp, e
+	case "sio-json", "sio-json-noext":
+		// the JSON text of the same specification, fetched by the sio crew from a URL whose name
+		// says ".json" or says nothing
+		name := fmt.Sprintf("spec-%d.json", id)
+		if loader == "sio-json-noext" {
+			name = fmt.Sprintf("spec-%d", id)
+		}
+		f := filepath.Join(dir, name)
+		os.WriteFile(f, js, 0o644)
+		defer os.Remove(f)
+		_, sp, e := sio.ResolveSpecSource(context.Background(), &crew.SpecSource{URL: "file://" + f})
+		return sp, e
 	}
 	err = s.Compile(context.Background(), nil, true)
 	return s, err
@@ -175,7 +187,7 @@ func runOneCompile(id int, doc map[string]interface{}, wellFormed bool, dir stri
 			base := behaviour(s)
 			same := true
 			// other representations of the same specification
-			for _, loader := range []string{"yaml", "sio"} {
+			for _, loader := range []string{"yaml", "sio", "sio-json", "sio-json-noext"} {
 				s2, err := compileDoc(doc, loader, dir, id)
 				if err != nil || behaviour(s2) != base {
 					same = false
@@ -294,7 +306,8 @@ func runCompile(cfg Config) {
 		case 3:
 			if n := pickNode(); n != nil {
 				if br, is := n["branching"].(map[string]interface{}); is {
-					br["type"] = "sideways"
+					// unknown types, including near misses of the two known ones
+					br["type"] = []string{"sideways", "Message", "BINDINGS", "message ", "msg"}[i%5]
 					wellFormed = false
 				}
 			}
